@@ -1,8 +1,99 @@
-From Coq Require Import NArith List Bool.
+(* C02 -- Collections hold what the history says, one dataset per type + data ID.
+   Statements only; every proof is `exact <lemma>` from Proofs/RegistryProofs.v.
+   `run h` is the state after the history h (fold_left of `step` from the empty registry); histories range over
+   ALL lists of operations with arbitrary (also invalid) arguments. *)
+From Coq Require Import NArith List Bool Lia.
 From V Require Import Model.Registry Proofs.RegistryProofs.
 Import ListNotations.
 Open Scope N_scope.
 
-Theorem stub : True.
-Proof. exact assoc_groups_err_dummy. Qed.
-Print Assumptions stub.
+(* ukey r = (collection, dataset type, data id);  pkey r = (dataset id, collection) *)
+
+Theorem tags_unique : forall h, NoDup (map ukey (tags (run h))).
+Proof. exact tags_unique_p. Qed.
+Print Assumptions tags_unique.
+
+Theorem tags_pk_unique : forall h, NoDup (map pkey (tags (run h))).
+Proof. exact tags_pk_unique_p. Qed.
+Print Assumptions tags_pk_unique.
+
+(* never two datasets with the same dataset type and data ID in a collection *)
+Theorem one_dataset_per_key : forall h c t d i j,
+  In (Row c t d i) (tags (run h)) -> In (Row c t d j) (tags (run h)) -> i = j.
+Proof. exact one_dataset_per_key_p. Qed.
+Print Assumptions one_dataset_per_key.
+
+(* every failing operation returns the same state *)
+Theorem refused_changes_nothing : forall s o s' e, step s o = (s', Err e) -> s' = s.
+Proof. exact refused_changes_nothing_p. Qed.
+Print Assumptions refused_changes_nothing.
+
+(* a dataset that is alive before and after a step keeps its dataset type and its run *)
+Theorem definition_constant_step : forall h o i x x',
+  ds_find (datasets (run h)) i = Some x -> ds_find (datasets (exec (run h) o)) i = Some x' -> x' = x.
+Proof. exact step_def_constant_p. Qed.
+Print Assumptions definition_constant_step.
+
+(* one RUN for the whole life: along any continuation h' during which the dataset stays alive *)
+Theorem one_run_for_life : forall h h' i,
+  (forall k, (k <= length h')%nat -> alive (run (h ++ firstn k h')) i = true) ->
+  run_of (run (h ++ h')) i = run_of (run h) i.
+Proof. exact one_run_for_life_p. Qed.
+Print Assumptions one_run_for_life.
+
+(* TAGGED contents change only at associate / disassociate / remove steps *)
+Theorem tagged_changes_only_by : forall s o c t, coll_type s c = Some TAGGED -> touches_tagged o = false ->
+  contents (exec s o) c t = contents s c t.
+Proof. exact tagged_frame_p. Qed.
+Print Assumptions tagged_changes_only_by.
+
+(* summaries over-approximate the contents, so pruning by them never loses a match *)
+Theorem summary_over_approx : forall h c t d i, In (Row c t d i) (tags (run h)) ->
+  mem2 (c, t) (summ_t (run h)) = true /\ mem2 (c, gov_of d) (summ_g (run h)) = true.
+Proof. exact summary_over_approx_p. Qed.
+Print Assumptions summary_over_approx.
+
+Theorem pruned_query_eq : forall h c t g, query_with_summaries (run h) c t g = query_all (run h) c t g.
+Proof. exact pruned_query_eq_p. Qed.
+Print Assumptions pruned_query_eq.
+
+(* the conflict error is raised exactly when uniqueness would break (single-entry batches; the batch forms are
+   covered by tags_unique + refused_changes_nothing and by the correspondence run) *)
+Theorem associate_conflict_iff_partial : forall s c i t d,
+  coll_type s c = Some TAGGED -> has_type s t = true -> alive s i = true ->
+  (snd (step s (Associate c [Ref i t d])) = Err Conflict <->
+   exists x, In x (tags s) /\ r_coll x = c /\ r_type x = t /\ r_data x = d /\ r_id x <> i).
+Proof. exact associate_conflict_iff_p. Qed.
+Print Assumptions associate_conflict_iff_partial.
+
+Theorem insert_conflict_iff_partial : forall s t c d i,
+  has_type s t = true -> coll_type s c = Some RUN -> valid_d d = true -> alive s i = false ->
+  (snd (step s (Insert t c [(d, i)])) = Err Conflict <->
+   exists x, In x (tags s) /\ (ukey x = (c, t, d) \/ pkey x = (i, c))).
+Proof. exact insert_conflict_iff_p. Qed.
+Print Assumptions insert_conflict_iff_partial.
+
+(* ---- non-vacuity: a reachable, non-trivial state and the behaviours the hypotheses talk about ------------ *)
+Definition ex_h : list op :=
+  [RegisterRun 0; RegisterRun 2; RegisterTagged 1; RegisterType 0; RegisterType 1;
+   Insert 0 0 [(0, 100); (1, 101)]; Insert 0 2 [(0, 110)]; Associate 1 [Ref 100 0 0; Ref 101 0 1]].
+
+Example ex_tags : length (tags (run ex_h)) = 5%nat.
+Proof. vm_compute. reflexivity. Qed.
+Example ex_conflict_assoc : step (run ex_h) (Associate 1 [Ref 110 0 0]) = (run ex_h, Err Conflict).
+Proof. vm_compute. reflexivity. Qed.
+Example ex_conflict_insert : snd (step (run ex_h) (Insert 0 0 [(1, 120)])) = Err Conflict.
+Proof. vm_compute. reflexivity. Qed.
+Example ex_reimport_same : step (run ex_h) (Import 0 [Ref 100 0 0]) = (run ex_h, Ok).
+Proof. vm_compute. reflexivity. Qed.
+Example ex_reimport_other_run : snd (step (run ex_h) (Import 2 [Ref 100 0 0])) = Err Conflict.
+Proof. vm_compute. reflexivity. Qed.
+Example ex_alive_through : forall k, (k <= 2)%nat ->
+  alive (run (ex_h ++ firstn k [Disassociate 1 [Ref 100 0 0]; RemoveDatasets [101]])) 100 = true.
+Proof. intros k H. destruct k as [|[|[|k]]]; [vm_compute; reflexivity | vm_compute; reflexivity | vm_compute; reflexivity | lia]. Qed.
+Example ex_tagged : coll_type (run ex_h) 1 = Some TAGGED /\ contents (run ex_h) 1 0 = [(1, 101); (0, 100)].
+Proof. vm_compute. split; reflexivity. Qed.
+Example ex_remove_run_cascades : tags (exec (run ex_h) (RemoveCollection 0)) = [Row 2 0 0 110].
+Proof. vm_compute. reflexivity. Qed.
+Example ex_pruned_nonempty : query_with_summaries (run ex_h) 1 0 0 = [(1, 101); (0, 100)].
+Proof. vm_compute. reflexivity. Qed.
